@@ -76,10 +76,15 @@ def main():
         tmp_ev = '/tmp/seed-ev-%s' % name
         os.makedirs(tmp_ev, exist_ok=True)
         e2 = dict(os.environ, VERIF_EVIDENCE_DIR=tmp_ev, VERIF_OUT_DIR=tmp_ev, VERIF_NO_BATTERY='1')
-        for c in man['checks']:
-            rc, out = sh(c['quick_cmd'], cwd=VERIF, env=e2)
-            lines = [l for l in out.splitlines() if l.startswith(c['property_id'] + ' [')]
-            results[c['property_id']] = {'exit': rc, 'violations': [l[:400] for l in lines][:4]}
+        import concurrent.futures
+
+        def one(c):
+            rc_, out_ = sh(c['quick_cmd'], cwd=VERIF, env=e2)
+            lines = [l for l in out_.splitlines() if l.startswith(c['property_id'] + ' [')]
+            return c['property_id'], {'exit': rc_, 'violations': [l[:400] for l in lines][:4]}
+        with concurrent.futures.ThreadPoolExecutor(max_workers=10) as ex:       # the checks only read the (patched) tree
+            for pid, r_ in ex.map(one, man['checks']):
+                results[pid] = r_
         shutil.rmtree(tmp_ev, ignore_errors=True)
     finally:
         sh('git -C /repo checkout -- .')
